@@ -16,10 +16,10 @@ theorem verifyExisting_none_same {s : State} {n : Node} (hu : verifyExisting s n
   exact ⟨by simpa using h2, by simpa using h3⟩
 
 /-- The node table after `registerNode`: unchanged, or exactly the new descriptor under its id. -/
-theorem regNode_nodes (ord : Order) (s : State) (t : Key) (sn : SignedNode) :
-    (regNode ord s t sn).1.nodes = s.nodes ∨
-    (NodeChecks s t sn ∧ (regNode ord s t sn).1.nodes = s.nodes.set sn.node.id sn.node) := by
-  rcases regNode_spec ord s t sn with e | ⟨hc, e | ⟨_, _, e⟩⟩
+theorem regNode_nodes (gen : Bool) (ord : Order) (s : State) (t : Key) (sn : SignedNode) :
+    (regNode gen ord s t sn).1.nodes = s.nodes ∨
+    (NodeChecks gen s t sn ∧ (regNode gen ord s t sn).1.nodes = s.nodes.set sn.node.id sn.node) := by
+  rcases regNode_spec gen ord s t sn with e | ⟨hc, e | ⟨_, _, e⟩⟩
   · exact Or.inl (by rw [e])
   · exact Or.inr ⟨hc, by rw [e]; rfl⟩
   · exact Or.inr ⟨hc, by rw [e]; rfl⟩
@@ -153,41 +153,42 @@ theorem epochTransition_entities_runtimes (s : State) (e : Nat) :
   simp only []
   split <;> exact hfold _ _
 
-/-- The authority-relevant part of a runtime descriptor (everything except the `suspended` flag). -/
-def rtCore (rt : Runtime) : RtId × Key × Gov × Kind := (rt.id, rt.entity, rt.gov, rt.kind)
+theorem regNode_entities (gen : Bool) (ord : Order) (s : State) (t : Key) (sn : SignedNode) :
+    (regNode gen ord s t sn).1.entities = s.entities := by
+  rcases regNode_spec gen ord s t sn with e | ⟨_, e | ⟨_, _, e⟩⟩ <;> rw [e] <;> rfl
 
-theorem regNode_entities (ord : Order) (s : State) (t : Key) (sn : SignedNode) :
-    (regNode ord s t sn).1.entities = s.entities := by
-  rcases regNode_spec ord s t sn with e | ⟨_, e | ⟨_, _, e⟩⟩ <;> rw [e] <;> rfl
-
-theorem regNode_runtimes (ord : Order) (s : State) (t : Key) (sn : SignedNode) (r : RtId) :
-    ((regNode ord s t sn).1.runtimes.get r).map rtCore = (s.runtimes.get r).map rtCore := by
-  rcases regNode_spec ord s t sn with e | ⟨_, e | ⟨_, _, e⟩⟩
+theorem regNode_runtimes (gen : Bool) (ord : Order) (s : State) (t : Key) (sn : SignedNode) (r : RtId) :
+    ((regNode gen ord s t sn).1.runtimes.get r).map rtCore = (s.runtimes.get r).map rtCore := by
+  rcases regNode_spec gen ord s t sn with e | ⟨_, e | ⟨_, _, e⟩⟩
   · rw [e]
   · rw [e]
-    have : (regNodeOk ord s sn.node).runtimes = resumeRuntimes s.runtimes sn.node.runtimes := rfl
-    rw [this, get_resumeRuntimes]
-    cases s.runtimes.get r with
-    | none => rfl
-    | some x => simp only [Option.map_some]; split <;> rfl
+    exact get_resumeRuntimes_core _ s.runtimes sn.node.runtimes r
   · rw [e]; rfl
 
-theorem regRuntime_runtimes (s : State) (c : Addr) (rt : Runtime) (r : RtId)
-    (h : ((regRuntime s c rt).1.runtimes.get r).map rtCore ≠ (s.runtimes.get r).map rtCore) :
-    r = rt.id ∧ (runtimeToCheck s rt).stakingAddr = some c ∧
+/-- A runtime descriptor (up to the `suspended` flag) changes only through `registerRuntime` of that id,
+accepted by the update rules and — for a transaction — called by the governing staking address. -/
+theorem regRuntime_runtimes (gen : Bool) (s : State) (c : Addr) (rt : Runtime) (r : RtId)
+    (h : ((regRuntime gen s c rt).1.runtimes.get r).map rtCore ≠ (s.runtimes.get r).map rtCore) :
+    r = rt.id ∧ (gen = false → (runtimeToCheck s rt).stakingAddr = some c) ∧
       verifyRuntimeUpdate (s.runtimes.get rt.id) rt = none ∧
-      ((regRuntime s c rt).1.runtimes.get r).map rtCore = some (rtCore rt) := by
-  rcases regRuntime_spec s c rt with e | ⟨addr, _, hc, hv, e⟩
-  · rw [e] at h; exact absurd rfl h
-  · rw [e] at h ⊢
-    have hr : (regRuntimeOk s rt addr).runtimes =
-        s.runtimes.set rt.id { rt with suspended := match s.runtimes.get rt.id with | some cur => cur.suspended | none => false } := rfl
+      ((regRuntime gen s c rt).1.runtimes.get r).map rtCore = some (rtCore rt) := by
+  have key : ∀ s' : State, s'.runtimes = s.runtimes.set rt.id
+        { rt with suspended := match s.runtimes.get rt.id with | some cur => cur.suspended | none => false } →
+      (s'.runtimes.get r).map rtCore ≠ (s.runtimes.get r).map rtCore →
+      r = rt.id ∧ (s'.runtimes.get r).map rtCore = some (rtCore rt) := by
+    intro s' hr h
     rw [hr] at h ⊢
     simp only [Map.get_set] at h ⊢
     by_cases hid : rt.id = r
-    · subst hid
-      simp only [if_true]
-      exact ⟨trivial, hc, hv, rfl⟩
+    · subst hid; simp only [if_true]; exact ⟨trivial, rfl⟩
     · simp only [hid, if_false] at h; exact absurd rfl h
+  rcases regRuntime_spec gen s c rt with e | ⟨hv, hc, ⟨_, e⟩ | ⟨addr, _, _, e⟩⟩
+  · rw [e] at h; exact absurd rfl h
+  · rw [e] at h ⊢
+    obtain ⟨h1, h2⟩ := key (regRuntimeNoClaim s rt) rfl h
+    exact ⟨h1, hc, hv, h2⟩
+  · rw [e] at h ⊢
+    obtain ⟨h1, h2⟩ := key (regRuntimeOk s rt addr) rfl h
+    exact ⟨h1, hc, hv, h2⟩
 
 end OasisProofs.Registry
